@@ -15,6 +15,7 @@ open Afkak.Monitor.C10
     never written afterwards; `down` is reported at most once and only after `close()`. -/
 def C10_reentrant : Prop :=
   ∀ (cfg : Afkak.BrokerClient.Cfg) (host port : Nat) (evs : List Afkak.BrokerClientR.EvR),
-    r10 (Afkak.BrokerClientR.traceR cfg (Afkak.BrokerClientR.StR.init host port) evs) = true
+    ∃ N, ∀ fuel, N ≤ fuel →
+      r10 (Afkak.BrokerClientR.traceRWith cfg fuel (Afkak.BrokerClientR.StR.init host port) evs) = true
 
 end Afkak.Props.C10.Open
